@@ -47,7 +47,18 @@ pub fn take_deps() -> Vec<String> {
     DEPS.with(|l| std::mem::take(&mut *l.borrow_mut()))
 }
 
-#[unimock(api=UMock, unmock_with=[_, real_r1, _, _, real_d1, _, _, _, _])]
+/// an argument whose Debug rendering panics (with a user panic) when it carries 7
+pub struct PD(pub u8);
+impl std::fmt::Debug for PD {
+    fn fmt(&self, f: &mut std::fmt::Formatter<'_>) -> std::fmt::Result {
+        if self.0 == 7 {
+            std::panic::panic_any(crate::vals::UserPanic(7));
+        }
+        write!(f, "PD({})", self.0)
+    }
+}
+
+#[unimock(api=UMock, unmock_with=[_, real_r1, _, _, real_d1, _, _, _, _, _])]
 pub trait U {
     fn r0(&self, a: u8) -> Val;
     fn r1(&self, a: u8) -> Val;
@@ -66,6 +77,8 @@ pub trait U {
     fn dp(self: std::pin::Pin<&mut Self>, a: u8) -> Val {
         self.lendreq(a)
     }
+    /// (lifecycle mock: answered by `.panics(..)`) the error text renders the argument
+    fn pd(&self, x: PD) -> u8;
 }
 
 pub fn real_r1(dep: &impl U, a: u8) -> Val {
